@@ -44,13 +44,13 @@ BUDGETS = [None, {"max": 1, "window": 8}, {"max": 2, "window": 8, "prefill": 1},
 def tasks(tier):
     out = []
     if tier == "quick":
-        pcs = [{}, {"T": 1}]
+        pcs = [{}, {"T": 1}, {"U": 2}]
         mus = [None, 1]
         strats = [{"default": "ctx", "per": {}}, {"default": None, "per": {"T": "ctx", "U": "legacy"}}]
         buds = BUDGETS[:3]
         bound = 1
     else:
-        pcs = [{}, {"T": 0}, {"T": 1}, {"U": 1}]
+        pcs = [{}, {"T": 0}, {"T": 1}, {"U": 1}, {"U": 2}]
         mus = [None, 0, 1]
         strats = [{"default": "ctx", "per": {}}, {"default": "legacy", "per": {"T": "ctx"}},
                   {"default": None, "per": {"T": "ctx", "U": "legacy"}}]
@@ -79,6 +79,11 @@ def tasks(tier):
         cfg = dict(M=M, alphabet=["ok", "x:T", "r:T"], handler="call", handler_free=True,
                    strat_menu=[0, "nan", -1, 1], strat_free=True, max_unknown=None)
         out.append({"family": "permit-zero-delay", "cfg": cfg, "entry": e, "bound": 0})
+    # the abort condition is a flag raised by the environment at some point of the run
+    for M, hd, e in itertools.product([2, 3], [None, "call"], Q4):
+        cfg = dict(M=M, alphabet=["ok", "x:T", "r:T"], abort=True, abort_mode="flag", handler=hd,
+                   handler_menu=["SLEEP"], max_unknown=None, strat_menu=[1, 0], strat_free=True)
+        out.append({"family": "permit-abort-flag", "cfg": cfg, "entry": e, "bound": 1})
     # attempt_timeout_s (sync: owned executor, async: virtual event loop)
     for M, pc, at, e in itertools.product([2, 3], [{}, {"T": 1}], [1, 2], Q4):
         cfg = dict(M=M, per_class=pc, alphabet=["ok", "x:T", "x:U", "r:T"], attempt_timeout=at,
@@ -112,6 +117,13 @@ def monitor(w, cfg):
     budget = BudgetRef(cfg)
     for call in split_calls(w.trace):
         last_failed = None
+        flag = next((r for r in call.records if r[0] == "abort_flag"), None)
+        if flag is not None:
+            for r in call.records[call.records.index(flag) + 1:]:
+                if r[0] == "op" and r[2] != "cut" and r[3] >= flag[2]:
+                    v.append(("c03.attempt-after-abort-request",
+                              f"abort was requested (during {flag[1]} at {flag[2]}) yet attempt "
+                              f"{r[1]} was made"))
         aborted = any(r[0] == "poll" and r[1] for r in call.records)
         cancelled = False
         for a in attempts(cfg, call, budget):
